@@ -522,7 +522,17 @@ namespace ip {
 				p.overhead = 40;
 				p.hops = hops;
 				p.seq_nr = m_next_outgoing_seq++;
-				p.drop_fun = std::bind(&tcp::socket::packet_dropped, this, _1);
+				// a hop may report the drop long after this call returned. Route
+				// the report through the forwarder, which follows the socket
+				// when it is moved and is detached when it is closed or
+				// destroyed, and ignore it unless the socket is still on the
+				// connection the segment belongs to
+				p.drop_fun = [f = m_forwarder, c = m_channel](aux::packet pkt)
+				{
+					auto* s = static_cast<tcp::socket*>(f->destination());
+					if (s == nullptr || s->m_channel != c) return;
+					s->packet_dropped(std::move(pkt));
+				};
 
 				send_packet(std::move(p));
 				ptr += packet_size;
